@@ -2,12 +2,13 @@ package main
 
 // kind 0302: the real fsutil.Receive inside the jail, fed by a scripted (hostile) sender.
 //
-// input : (setup-ops dest packets)
+// input : (setup-ops dest packets merge)
 //   setup-ops  ops of kind 0301 (c03_kernel.go) that build the whole jail: the destination with
 //              whatever it already contains, and the sentinel tree outside it
 //   dest       the string handed to Receive (absolute, relative, through a symlink, ...)
 //   packets    (0 stat) STAT | (0) the empty STAT | (1 id data) DATA | (2) FIN | (3 msg) ERR |
 //              (4 id) REQ | (5 type) a packet of an unknown type
+//   merge      ReceiveOpt.Merge
 // output: (class t0 destreal before after)
 //   class      0 Receive returned nil | 1 it returned an error | 2 it did not return although the
 //              sender had closed the stream (it is then cancelled) | 3 the receiver process died
@@ -174,9 +175,9 @@ func c03Settle(buf []byte, limit time.Duration) bool {
 	}
 }
 
-func c03RecvTrampoline(ctx context.Context, st fsutil.Stream, dest string, started chan<- struct{}, done chan<- error) {
+func c03RecvTrampoline(ctx context.Context, st fsutil.Stream, dest string, merge bool, started chan<- struct{}, done chan<- error) {
 	close(started) // from here on this goroutine shows the marker frame in every stack dump
-	done <- fsutil.Receive(ctx, st, dest, fsutil.ReceiveOpt{})
+	done <- fsutil.Receive(ctx, st, dest, fsutil.ReceiveOpt{Merge: merge})
 }
 
 func c03Packet(x Sx) *types.Packet {
@@ -246,7 +247,7 @@ func child0302(in Sx) Sx {
 		}
 	}()
 	started := make(chan struct{})
-	go c03RecvTrampoline(ctx, sp.B, dest, started, done)
+	go c03RecvTrampoline(ctx, sp.B, dest, in.L[3].IsTrue(), started, done)
 	<-started
 
 	buf := make([]byte, 1<<20)
